@@ -130,7 +130,7 @@ func tblApply(a tblAct) (row map[string]any) {
 		}
 	}
 	ev["rib"] = routes
-	ev["shape"] = map[string]int{"ribnodes": n, "ribdead": d, "fibnodes": fs.Nodes, "fibdead": fs.Dead, "virt": fs.Virt, "virtdead": fs.VirtDead}
+	ev["shape"] = map[string]int{"ribnodes": n, "ribdead": d, "fibnodes": fs.Nodes, "fibdead": fs.Dead, "virt": fs.Virt, "virtdead": fs.VirtDead, "virtstale": fs.VirtStale}
 	return ev
 }
 
